@@ -422,7 +422,9 @@ type MsgDesc struct {
 
 var msgNames = []string{"", "AreYouThere", "OnLineData", "ERN", "名前", "a.b", "x/y", "[x]", "Wafer#1", "né", "S", "H->", "\xff\xfe", "<", ".",
 	"Are\x00You", "esc\x1bname", "del\x7f", "c1\u009f", "\x01", "zw\u200bsp", "bom\ufeff",
-	"Yield%", "100%Done", "50%%", "%d", "%s%v", "%!v(MISSING)", "a%[1]d", "\\n", "{0}"}
+	"Yield%", "100%Done", "50%%", "%d", "%s%v", "%!v(MISSING)", "a%[1]d", "\\n", "{0}",
+	// letters whose UTF-8 encoding contains the bytes 0x85 or 0xA0 (white space as Latin-1 runes)
+	"Voilà", "Ångström", "状態", "выход"}
 
 func genMsgDesc(r *rand.Rand, item *Node, pbad float64) *MsgDesc {
 	m := &MsgDesc{Item: item}
